@@ -1,9 +1,13 @@
 import Micm.Lemmas.LUCell
+import Micm.Lemmas.LUCellMozart
+import Micm.Lemmas.LUCellSymbolic
+import Micm.Lemmas.LUCellSymbolicMozart
 import Mathlib.Algebra.Field.Rat
 
 /-!
-C03 — sparse LU reproduces `A` (one cell; Doolittle with separate `L`/`U` storage and Doolittle
-in place).
+C03 — sparse LU reproduces `A` (one cell), for the four algorithms: Doolittle and Mozart with
+separate `L`/`U` storage, Doolittle and Mozart in place; and `GetLUMatrices`/`GetLUMatrix` of the
+Doolittle variants return the fill closure (`C03_symbolic_closed`).
 
 Interface.  `view p a r c` is the logical matrix held by the rank-indexed array `a` under the
 pattern `p`.  (H1) `GoodPattern n p`: ranks of present elements are valid and injective;
@@ -94,6 +98,122 @@ theorem C03_doolittleInPlaceCell_isLU {n : Nat} {P : Pattern} (h : IPSetup n P) 
       · next hrc => rw [hv r c hr hc, if_neg (by omega)]
       · next hrc => exact (hsh.U_low r c (by omega)).symm
 
+/-- C03 (Mozart, separate storage): same statement as `C03_doolittleCell`; minimality of the
+    patterns is not needed because `Initialize` zero-fills every fill-in slot. -/
+theorem C03_mozartCell {n : Nat} {A Lp Up : Pattern} (h : MozSetup n A Lp Up) (hn : A.n = n)
+    (a l0 u0 : Array K) (hLs : l0.size = Lp.nnz) (hUs : u0.size = Up.nnz) :
+    ∀ r c, r < n → c < n →
+      view Lp (mozartCell (mozartInit A Lp Up) (mozartRows A Lp Up) a (l0, u0)).1 r c
+          = (DenseLU.lu (view A a) n).L r c ∧
+      view Up (mozartCell (mozartInit A Lp Up) (mozartRows A Lp Up) a (l0, u0)).2 r c
+          = (DenseLU.lu (view A a) n).U r c :=
+  mozartCell_view h hn a l0 u0 hLs hUs
+
+/-- C03 (Mozart), `L·U = A` when no pivot vanishes -/
+theorem C03_mozartCell_isLU {n : Nat} {A Lp Up : Pattern} (h : MozSetup n A Lp Up) (hn : A.n = n)
+    (a l0 u0 : Array K) (hLs : l0.size = Lp.nnz) (hUs : u0.size = Up.nnz)
+    (hpiv : ∀ i, i < n →
+      view Up (mozartCell (mozartInit A Lp Up) (mozartRows A Lp Up) a (l0, u0)).2 i i ≠ 0) :
+    ∃ Lm Um : Nat → Nat → K, DenseLU.IsLU n (view A a) Lm Um ∧
+      ∀ r c, r < n → c < n →
+        view Lp (mozartCell (mozartInit A Lp Up) (mozartRows A Lp Up) a (l0, u0)).1 r c = Lm r c ∧
+        view Up (mozartCell (mozartInit A Lp Up) (mozartRows A Lp Up) a (l0, u0)).2 r c = Um r c := by
+  have hv := mozartCell_view h hn a l0 u0 hLs hUs
+  refine ⟨_, _, DenseLU.lu_isLU (view A a) n ?_, hv⟩
+  intro i hi
+  rw [← (hv i i hi hi).2]
+  exact hpiv i hi
+
+/-- C03 (Mozart), independence of the prior contents of the `L`/`U` storage -/
+theorem C03_prior_contents_mozart {n : Nat} {A Lp Up : Pattern} (h : MozSetup n A Lp Up)
+    (hn : A.n = n) (a l0 u0 l0' u0' : Array K) (hLs : l0.size = Lp.nnz) (hUs : u0.size = Up.nnz)
+    (hLs' : l0'.size = Lp.nnz) (hUs' : u0'.size = Up.nnz) :
+    ∀ r c, r < n → c < n →
+      view Lp (mozartCell (mozartInit A Lp Up) (mozartRows A Lp Up) a (l0, u0)).1 r c
+        = view Lp (mozartCell (mozartInit A Lp Up) (mozartRows A Lp Up) a (l0', u0')).1 r c ∧
+      view Up (mozartCell (mozartInit A Lp Up) (mozartRows A Lp Up) a (l0, u0)).2 r c
+        = view Up (mozartCell (mozartInit A Lp Up) (mozartRows A Lp Up) a (l0', u0')).2 r c := by
+  intro r c hr hc
+  have h1 := mozartCell_view h hn a l0 u0 hLs hUs r c hr hc
+  have h2 := mozartCell_view h hn a l0' u0' hLs' hUs' r c hr hc
+  exact ⟨h1.1.trans h2.1.symm, h1.2.trans h2.2.symm⟩
+
+/-- C03 (Mozart in place): same statement as `C03_doolittleInPlaceCell` -/
+theorem C03_mozartInPlaceCell {n : Nat} {P : Pattern} (h : IPSetup n P) (hn : P.n = n)
+    (m0 : Array K) (hMs : m0.size = P.nnz) :
+    ∀ r c, r < n → c < n →
+      view P (mozartInPlaceCell (mozartInPlaceRows P) m0) r c
+        = if c < r then (DenseLU.lu (view P m0) n).L r c else (DenseLU.lu (view P m0) n).U r c :=
+  mozartInPlaceCell_view h hn m0 hMs
+
+/-- the two in-place algorithms and the two separate-storage algorithms compute the same
+    exact factors (C12 for the LU choice, exact arithmetic) -/
+theorem C03_mozart_eq_doolittle {n : Nat} {A Lp Up : Pattern} (h : LUSetup n A Lp Up)
+    (hn : A.n = n) (a l0 u0 l0' u0' : Array K) (hLs : l0.size = Lp.nnz) (hUs : u0.size = Up.nnz)
+    (hLs' : l0'.size = Lp.nnz) (hUs' : u0'.size = Up.nnz) :
+    ∀ r c, r < n → c < n →
+      view Lp (mozartCell (mozartInit A Lp Up) (mozartRows A Lp Up) a (l0, u0)).1 r c
+        = view Lp (doolittleCell (doolittleRows A Lp Up) a (l0', u0')).1 r c ∧
+      view Up (mozartCell (mozartInit A Lp Up) (mozartRows A Lp Up) a (l0, u0)).2 r c
+        = view Up (doolittleCell (doolittleRows A Lp Up) a (l0', u0')).2 r c := by
+  intro r c hr hc
+  have h1 := mozartCell_view h.toMoz hn a l0 u0 hLs hUs r c hr hc
+  have h2 := doolittleCell_view h hn a l0' u0' hLs' hUs' r c hr hc
+  exact ⟨h1.1.trans h2.1.symm, h1.2.trans h2.2.symm⟩
+
+theorem C03_mozartInPlace_eq_doolittleInPlace {n : Nat} {P : Pattern} (h : IPSetup n P)
+    (hn : P.n = n) (m0 : Array K) (hMs : m0.size = P.nnz) :
+    ∀ r c, r < n → c < n →
+      view P (mozartInPlaceCell (mozartInPlaceRows P) m0) r c
+        = view P (doolittleInPlaceCell (doolittleInPlaceRows P) m0) r c := by
+  intro r c hr hc
+  rw [mozartInPlaceCell_view h hn m0 hMs r c hr hc, doolittleInPlaceCell_view h hn m0 hMs r c hr hc]
+
+/-- C03, symbolic factorisation: for every input pattern `az` (`az r c = true` ⇔ `(r,c)` is a
+    structural zero), `doolittleSymbolic n az` returns a pair that is `Closed` (diagonal present,
+    support of `A` contained, closed under both fill rules), minimal, with `L` lower (full
+    diagonal) and `U` upper; the characterisation is exact (`doolittleSymbolic_inv`). -/
+theorem C03_symbolic_closed (n : Nat) (az : Nat → Nat → Bool) :
+    FillClosure n (fun r c => !az r c) (memB (doolittleSymbolic n az).1)
+      (memB (doolittleSymbolic n az).2) :=
+  doolittleSymbolic_fillClosure n az
+
+/-- hence (H2) holds for the patterns `LinAlg.build` constructs, given (H1) and that presence in
+    `Lp`/`Up` is membership in the computed sets -/
+theorem C03_setup_of_symbolic (n : Nat) (A Lp Up : Pattern) (gL : GoodPattern n Lp)
+    (gU : GoodPattern n Up)
+    (hL : ∀ r c, r < n → c < n →
+      (Lp.zero? r c = false ↔ (r, c) ∈ (doolittleSymbolic n (fun r c => A.zero? r c)).1))
+    (hU : ∀ r c, r < n → c < n →
+      (Up.zero? r c = false ↔ (r, c) ∈ (doolittleSymbolic n (fun r c => A.zero? r c)).2)) :
+    LUSetup n A Lp Up :=
+  LUSetup_of_symbolic n A Lp Up gL gU hL hU
+
+theorem C03_ipsetup_of_symbolic (n : Nat) (az : Nat → Nat → Bool) (P : Pattern)
+    (g : GoodPattern n P)
+    (hP : ∀ r c, r < n → c < n →
+      (P.zero? r c = false ↔ (r, c) ∈ doolittleInPlaceSymbolic n az)) : IPSetup n P :=
+  IPSetup_of_symbolic n az P g hP
+
+/-- the Mozart symbolic factorisations: for every input pattern with a full diagonal,
+    `mozartSymbolic` returns a triple satisfying `MozSetup` (closed, shapes; exact facts in
+    `mozartSymbolic_props`) … -/
+theorem C03_mozsetup_of_symbolic (n : Nat) (A Lp Up : Pattern) (gL : GoodPattern n Lp)
+    (gU : GoodPattern n Up) (hdiag : ∀ i, i < n → A.zero? i i = false)
+    (hL : ∀ r c, r < n → c < n →
+      (Lp.zero? r c = false ↔ (r, c) ∈ (mozartSymbolic n (fun r c => A.zero? r c)).1))
+    (hU : ∀ r c, r < n → c < n →
+      (Up.zero? r c = false ↔ (r, c) ∈ (mozartSymbolic n (fun r c => A.zero? r c)).2)) :
+    MozSetup n A Lp Up :=
+  MozSetup_of_symbolic n A Lp Up gL gU hdiag hL hU
+
+/-- … and `mozartInPlaceSymbolic` a pattern satisfying `IPSetup` -/
+theorem C03_ipsetup_of_mozartSymbolic (n : Nat) (az : Nat → Nat → Bool) (P : Pattern)
+    (g : GoodPattern n P) (hdiag : ∀ i, i < n → az i i = false)
+    (hP : ∀ r c, r < n → c < n →
+      (P.zero? r c = false ↔ (r, c) ∈ mozartInPlaceSymbolic n az)) : IPSetup n P :=
+  IPSetup_of_mozartSymbolic n az P g hdiag hP
+
 /-! ### the hypotheses are satisfiable: 3×3, `A` lacks (0,2),(1,2),(2,1); fill-in at `L(2,1)` -/
 
 def c03A : Pattern := Pattern.mk' 3 false 0 [(0,0),(0,1),(1,0),(1,1),(2,0),(2,2)]
@@ -106,6 +226,13 @@ example : doolittleSymbolic 3 (fun r c => c03A.zero? r c)
     = ([(0,0),(1,0),(1,1),(2,0),(2,1),(2,2)], [(0,0),(0,1),(1,1),(2,2)]) := by decide +kernel
 
 example : doolittleInPlaceSymbolic 3 (fun r c => c03A.zero? r c)
+    = [(0,0),(0,1),(1,0),(1,1),(2,0),(2,1),(2,2)] := by decide +kernel
+
+/-- ... and the Mozart variants compute the same sets on this instance -/
+example : mozartSymbolic 3 (fun r c => c03A.zero? r c)
+    = ([(0,0),(1,0),(1,1),(2,0),(2,1),(2,2)], [(0,0),(0,1),(1,1),(2,2)]) := by decide +kernel
+
+example : mozartInPlaceSymbolic 3 (fun r c => c03A.zero? r c)
     = [(0,0),(0,1),(1,0),(1,1),(2,0),(2,1),(2,2)] := by decide +kernel
 
 theorem c03L_good : GoodPattern 3 c03L := goodCheck_sound 3 c03L (by decide +kernel)
@@ -153,11 +280,29 @@ theorem c03_ipsetup : IPSetup 3 c03P where
       c03P.zero? r j = false ∧ c03P.zero? j c = false) → c03P.zero? r c = false)
       r hr c hc j (by omega) ⟨hjr, hjc, h1, h2⟩
 
+example : MozSetup 3 c03A c03L c03U := c03_setup.toMoz
+
+/-- (H1) also holds for the column-major vector ordering of the same sets -/
+example : GoodPattern 3 (Pattern.mk' 3 true 2 [(0,0),(1,0),(1,1),(2,0),(2,1),(2,2)]) :=
+  goodCheck_sound _ _ (by decide +kernel)
+
 /-- a numeric instance over `ℚ`: A = [[2,1,0],[4,3,0],[6,1,7]], garbage in `L`/`U` storage -/
 example :
     let a : Array ℚ := #[2, 1, 4, 3, 6, 7]
     let LU := doolittleCell (doolittleRows c03A c03L c03U) a (#[9,9,9,9,9,9], #[8,8,8,8])
     LU = (#[1, 2, 1, 3, -3, 1], #[2, 1, 1, 7]) := by decide +kernel
+
+example :
+    let a : Array ℚ := #[2, 1, 4, 3, 6, 7]
+    let LU := mozartCell (mozartInit c03A c03L c03U) (mozartRows c03A c03L c03U) a
+      (#[9,9,9,9,9,9], #[8,8,8,8])
+    LU = (#[1, 2, 1, 3, -3, 1], #[2, 1, 1, 7]) := by decide +kernel
+
+/-- in place: the fill-in slot (2,1) holds 0 on entry -/
+example :
+    let m0 : Array ℚ := #[2, 1, 4, 3, 6, 0, 7]
+    doolittleInPlaceCell (doolittleInPlaceRows c03P) m0 = #[2, 1, 2, 1, 3, -3, 7] ∧
+    mozartInPlaceCell (mozartInPlaceRows c03P) m0 = #[2, 1, 2, 1, 3, -3, 7] := by decide +kernel
 
 end Micm
 
@@ -166,5 +311,16 @@ end Micm
 #print axioms Micm.C03_prior_contents
 #print axioms Micm.C03_doolittleInPlaceCell
 #print axioms Micm.C03_doolittleInPlaceCell_isLU
+#print axioms Micm.C03_mozartCell
+#print axioms Micm.C03_mozartCell_isLU
+#print axioms Micm.C03_prior_contents_mozart
+#print axioms Micm.C03_mozartInPlaceCell
+#print axioms Micm.C03_mozart_eq_doolittle
+#print axioms Micm.C03_mozartInPlace_eq_doolittleInPlace
+#print axioms Micm.C03_symbolic_closed
+#print axioms Micm.C03_setup_of_symbolic
+#print axioms Micm.C03_ipsetup_of_symbolic
+#print axioms Micm.C03_mozsetup_of_symbolic
+#print axioms Micm.C03_ipsetup_of_mozartSymbolic
 #print axioms Micm.c03_setup
 #print axioms Micm.c03_ipsetup
